@@ -187,7 +187,7 @@ pub fn run_worker(
         failure_persistence: None,
         max_shrink_iters: 3_000,
         // safety cap only: affects how small the reported case gets, never the verdict
-        max_shrink_time: 90_000,
+        max_shrink_time: 30_000,
         verbose: 0,
         ..Config::default()
     };
